@@ -150,6 +150,7 @@ func (ex *Exec) rootLeaf(st *State, lv *LValue, k int) string {
 		return v.L[k]
 	case lvHeap:
 		c := ex.comp(st, compH(lv.Root, k), sArr(sInt, leaves[k].Sort))
+		ex.guardAccess(st, compH(lv.Root, k), lv.Ref, false)
 		return mkSelect(c, lv.Ref)
 	case lvElem:
 		c := ex.comp(st, compE(lv.Root, k), sArr(sInt, sArr(sInt, leaves[k].Sort)))
@@ -176,6 +177,7 @@ func (ex *Exec) setRootLeaf(st *State, lv *LValue, k int, term string) {
 		name := compH(lv.Root, k)
 		srt := sArr(sInt, leaves[k].Sort)
 		c := ex.comp(st, name, srt)
+		ex.guardAccess(st, name, lv.Ref, true)
 		ex.noteWrite(name, lv.Ref)
 		ex.setComp(st, name, srt, mkStore(c, lv.Ref, term))
 	case lvElem:
@@ -536,4 +538,12 @@ func sameVal(a, b Val) bool {
 		}
 	}
 	return true
+}
+
+// guardAccess: lock-discipline obligations for an access made by the current instruction.
+func (ex *Exec) guardAccess(st *State, comp, ref string, write bool) {
+	if !ex.lockChecks || ex.sc.pure > 0 || ex.curFrame == nil || ex.curInstr == nil || !ex.record {
+		return
+	}
+	ex.guardCheck(ex.curFrame, st, ex.curReach, comp, ref, ex.curInstr.Pos(), write)
 }
